@@ -1201,3 +1201,103 @@ def rule_read_list_required(ctx):
         ctx.violated("READLIST", key, f.where(), "VSread runs %d loops over the read list (`j < r->n`) and never tests that the list is non-empty: with no fields selected for reading it copies nothing and reports success" % loops)
     ctx.floor("READLIST", 3, loops, "(loops of VSread over the read list)")
     return 1
+
+
+# ---------------------------------------------------------------------------------------------------------------------
+def rule_read_list_indirection(ctx, files=("hdf/src/vrw.c",)):
+    """IDXMAP (C07): the fields selected for reading are kept as a list of indices into the stored field table: `r->item[j]`, j < r->n,
+    names the j-th requested field among the stored ones (`w->esize[]`, `w->isize[]`, `w->off[]`, `w->type[]`, `w->order[]`).  In a loop
+    over the read list (`j < r->n`) the stored-field tables are therefore indexed through `r->item[j]` (directly or via a local
+    loaded from it) — never with the bare position j, which names the j-th *stored* field: that is the same field only when the
+    request is a prefix of the stored fields in stored order."""
+    prog = ctx.prog
+    n = 0
+    for f in prog.lib_funcs():
+        if not f.rel.endswith(tuple(files)) or not f.raw.get("ast"):
+            continue
+        k = 0
+        for lp, _st in loops_of(f):
+            if lp[0] != "for" or lp[2] is None:
+                continue
+            c = strip(lp[2])
+            if not (kind(c) == "bin" and c[1] == "<" and kind(strip(c[2])) == "var" and kind(strip(c[3])) == "mem" and strip(c[3])[2] == "n" and base_var(c[3]) == "r"):
+                continue
+            jv = strip(c[2])[1]
+            exprs = [e for e, _n in seq_of(lp[4])] + [x for x in (lp[1], lp[3]) if x is not None]
+            bad = []
+            uses = 0
+            for e in exprs:
+                for x in walk(e, True):
+                    if x[0] == "idx" and kind(strip(x[1])) == "mem" and base_var(x[1]) == "w":
+                        uses += 1
+                        ix = strip(x[2])
+                        if kind(ix) == "var" and ix[1] == jv:
+                            bad.append(render(x))
+            if not uses:
+                continue
+            k += 1
+            n += 1
+            key = "IDXMAP:%s#%d" % (f.name, k)
+            if bad:
+                ctx.violated("IDXMAP", key, f.where(node_line(lp)), "in a loop over the read list (`%s < r->n`) the stored-field table is indexed with the list position: `%s` — the size/offset of the wrong field is used unless the request is a prefix of the stored fields" % (jv, bad[0]))
+            else:
+                ctx.holds("IDXMAP", key, f.where(node_line(lp)), "stored-field tables are indexed through r->item[%s] in this loop over the read list" % jv, nontrivial=True)
+    ctx.floor("IDXMAP", 4, n, "(loops over the read list that use the stored-field tables)")
+    return n
+
+
+def rule_matched_index_used(ctx, files=("hdf/src/vg.c", "hdf/src/vsfld.c", "hdf/src/vrw.c", "hdf/src/vio.c")):
+    """MATCHIDX (C07): looking a field up by name is a scan `for (j ..) if (!strcmp(wanted, table.name[j]))`; what is then taken from
+    the sibling tables of `table` (esize, isize, type, order, off) is the entry of the *matched* position j.  Inside the arm of
+    such a match every index into a sibling table of the matched one is the index the match used, not the position in the
+    caller's list of wanted names."""
+    prog = ctx.prog
+    n = 0
+    occ = {}
+    for f in prog.lib_funcs():
+        if not f.rel.endswith(tuple(files)) or not f.raw.get("ast"):
+            continue
+        sites = []
+
+        def vis(nd, st):
+            if nd[0] == "if":
+                for c in calls_in(nd[1], True):
+                    if c[1] in ("strcmp", "strncmp", "HDstrcmp") and len(c[3]) >= 2:
+                        for a in c[3][:2]:
+                            a = strip(a)
+                            if kind(a) == "idx" and kind(strip(a[1])) == "mem" and strip(a[1])[2] == "name" and kind(strip(a[2])) == "var":
+                                sites.append((nd, strip(a[1])[1], strip(a[2])[1]))
+                            elif kind(a) == "mem" and a[2] == "name" and kind(strip(a[1])) == "idx" and kind(strip(strip(a[1])[2])) == "var":
+                                sites.append((nd, ("AOS", strip(strip(a[1])[1])), strip(strip(a[1])[2])[1]))
+            return True
+
+        ast_walk(f.raw["ast"], vis)
+        for nd, rec, jv in sites:
+            aos = isinstance(rec, tuple)
+            recr = render(strip(rec[1] if aos else rec))
+            uses, bad = 0, []
+            for e, _n in seq_of(nd[2]):
+                for x in walk(e, True):
+                    if not aos and x[0] == "idx" and kind(strip(x[1])) == "mem" and render(strip(strip(x[1])[1])) == recr and strip(x[1])[2] != "name":
+                        uses += 1
+                        ix = strip(x[2])
+                        if not (kind(ix) == "var" and ix[1] == jv):
+                            bad.append(render(x))
+                    elif aos and x[0] == "mem" and x[2] != "name" and kind(strip(x[1])) == "idx" and render(strip(strip(x[1])[1])) == recr:
+                        uses += 1
+                        ix = strip(strip(x[1])[2])
+                        if not (kind(ix) == "var" and ix[1] == jv):
+                            bad.append(render(x))
+            if not uses:
+                continue
+            n += 1
+            key = "MATCHIDX:%s:%s" % (f.name, recr[:20])
+            occ[key] = occ.get(key, 0) + 1
+            if occ[key] > 1:
+                key += "#%d" % occ[key]
+            if bad:
+                ctx.violated("MATCHIDX", key, f.where(node_line(nd)), "the name matched at `%s.name[%s]`, but `%s` is taken at another index: the attribute of a different field is used" % (recr, jv, bad[0]))
+            else:
+                ctx.holds("MATCHIDX", key, f.where(node_line(nd)), "sibling tables of `%s` are read at the matched index `%s`" % (recr, jv), nontrivial=True)
+    ctx.floor("MATCHIDX", 2, n, "(name matches that read sibling tables)")
+    return n
